@@ -25,44 +25,6 @@ func (c *Ctx) c20constStr(rule, rel, name string) (string, bool) {
 	return constString(ssa.NewConst(o.Val(), o.Type()))
 }
 
-// c20isParam: v resolves (through conversions and single-assignment cells) to parameter p.
-func c20isParam(v ssa.Value, p *ssa.Parameter) bool { return c05resolve(v) == ssa.Value(p) }
-
-// c20idMatchEdges: edges of fn on which AdString(<ad>, "ClaimId") equals the value `id`, and the
-// edges on which they differ.
-func (c *Ctx) c20idMatchEdges(fn *ssa.Function, adString *ssa.Function, claimAttr string, ad ssa.Value, id func(ssa.Value) bool) (eq, ne []Edge) {
-	isGot := func(v ssa.Value) bool {
-		call, ok := c05resolve(v).(*ssa.Call)
-		if !ok || calleeFn(call) != adString || len(call.Call.Args) != 2 {
-			return false
-		}
-		s, isC := constString(call.Call.Args[1])
-		return isC && s == claimAttr && c05resolve(call.Call.Args[0]) == ad
-	}
-	for _, b := range fn.Blocks {
-		a, e, n, ok := c05eqEdges(b)
-		if !ok {
-			continue
-		}
-		if (isGot(a.X) && id(a.Y)) || (isGot(a.Y) && id(a.X)) {
-			eq = append(eq, e)
-			ne = append(ne, n)
-		}
-	}
-	return
-}
-
-// c20closes: invoke of Close on a value that resolves to conn.
-func c20closes(fn *ssa.Function, conn ssa.Value) []ssa.Instruction {
-	var out []ssa.Instruction
-	allInstrs(fn, func(_ *ssa.BasicBlock, _ int, in ssa.Instruction) {
-		if call, ok := in.(*ssa.Call); ok && call.Call.IsInvoke() && call.Call.Method.Name() == "Close" && c05resolve(call.Call.Value) == conn {
-			out = append(out, call)
-		}
-	})
-	return out
-}
-
 // c20resultStores: the values a function may return as result i, with the instruction at which the
 // value is committed (the Store into the spilled result cell, or the Return itself).
 type c20Res struct {
@@ -91,11 +53,68 @@ func c20results(fn *ssa.Function, i int) []c20Res {
 	return out
 }
 
+// c20connTg: the target "result value r is committed" (the Return, or the Store into the spilled result
+// cell; it counts only when the value is not nil on the path that reaches it).
+func c20connTg(root *c05Frame, r c20Res) c05Tg {
+	return c05Tg{fr: root, in: r.at, ifNonNil: r.val}
+}
+
+// c20Match gathers, for one root function and one stream predicate, the hello reads and the facts
+// they give: a nil-error readReverseConnect on an accepted stream, and the equal outcome of
+// AdString(hello, ClaimId) == connectID.
+type c20Match struct {
+	hellos map[c05Call]bool
+	claim  string
+	ads    *ssa.Function
+	id     c05V
+}
+
+func (m *c20Match) helloOK() c05Fact {
+	return c05factErrNil(func(x c05Call) bool { return m.hellos[x] })
+}
+func (m *c20Match) helloFailed() c05Fact {
+	return c05factNilOfCall(false, func(x c05Call) bool { return m.hellos[x] })
+}
+
+// isGot: v is AdString(<ad read by one of the hellos>, "ClaimId").
+func (m *c20Match) isGot(v c05V) bool {
+	if v.fr == nil {
+		return false
+	}
+	r := v.fr.res(v.v)
+	call, ok := r.v.(*ssa.Call)
+	if !ok || r.fr == nil || calleeFn(call) != m.ads || len(call.Call.Args) != 2 {
+		return false
+	}
+	s, isC := constString(call.Call.Args[1])
+	if !isC || s != m.claim {
+		return false
+	}
+	ad := r.fr.res(call.Call.Args[0])
+	hc, idx := c05resultOf(ad.v)
+	return hc != nil && idx == 0 && m.hellos[c05Call{ad.fr, hc}]
+}
+
+// idIs: the outcome "hello ClaimId == connectID" (want=true) or "!=" (want=false).
+func (m *c20Match) idIs(want bool) c05Fact {
+	return func(t c05Test) bool {
+		x, y, eq, ok := c05eqTest(t.v.v)
+		if !ok || t.v.fr == nil {
+			return false
+		}
+		f := t.v.fr
+		if !(m.isGot(c05V{x, f}) && f.res(y) == m.id) && !(m.isGot(c05V{y, f}) && f.res(x) == m.id) {
+			return false
+		}
+		return (eq == t.truth) == want
+	}
+}
+
 // C20-R1: the identifier is matched before a connection is returned.
 func c20r1(c *Ctx) {
 	defer c05timer("c20r1")()
 	const rule = "C20-R1"
-	c.Doc(rule, "acceptReversed returns a connection only after a nil-error hello read from a stream made of that same connection and on the equal edge of AdString(hello, ClaimId) == connectID; on the hello-error and mismatch edges the connection is closed before the next Accept or any return; proxyRequestOnStream returns the broker connection only after Result == true, a nil-error hello on the same broker stream and the same equality, and the request it wrote carried that connectID as ClaimId")
+	c.Doc(rule, "acceptReversed (seen together with its same-package helpers) returns a connection only after a nil-error hello read from a stream made of that same connection and on the equal edge of AdString(hello, ClaimId) == connectID; on the hello-error and mismatch edges the connection is closed before the next Accept or any return; proxyRequestOnStream returns the broker connection only after Result == true, a nil-error hello on the same broker stream and the same equality, and the request it wrote carried that connectID as ClaimId")
 	acc := c.needFn(rule, "ccb", "acceptReversed")
 	prx := c.needFn(rule, "ccb", "proxyRequestOnStream")
 	rrc := c.needFn(rule, "ccb", "readReverseConnect")
@@ -108,179 +127,221 @@ func c20r1(c *Ctx) {
 	if acc == nil || prx == nil || rrc == nil || ads == nil || adb == nil || rca == nil || newStream == nil || !ok1 || !ok2 {
 		return
 	}
+	stops := []*ssa.Function{rrc, ads, adb, rca, c.LookupFn("ccb", "NewAd"), c.LookupFn("ccb", "WriteControlAd")}
 	// --- acceptReversed
 	n := 0
 	if len(acc.Params) == 3 {
-		idP := acc.Params[2]
+		root := c.c05rootFrame(acc, stops...)
+		idP, lnP := c05V{acc.Params[2], root}, c05V{acc.Params[1], root}
 		for _, r := range c20results(acc, 0) {
 			if isNilConst(r.val) {
 				continue
 			}
-			n++
-			key := fmt.Sprintf("%s#return-conn", fnName(acc))
-			if n > 1 {
-				key = fmt.Sprintf("%s/%d", key, n)
-			}
-			conn := c05resolve(r.val)
-			ex, isEx := conn.(*ssa.Extract)
-			var accCall *ssa.Call
-			if isEx {
-				accCall, _ = ex.Tuple.(*ssa.Call)
-			}
-			if accCall == nil || !accCall.Call.IsInvoke() || accCall.Call.Method.Name() != "Accept" || !c20isParam(accCall.Call.Value, acc.Params[1]) {
-				c.Violate(rule, key+":accepted", "the returned connection is not one accepted from the reverse-connect listener", r.at.Pos())
-				continue
-			}
-			var helloOK, eq, fail []Edge
-			for _, hc := range callsIn(acc, rrc.Object()) {
-				sarg, isCall := c05resolve(hc.Common().Args[1]).(*ssa.Call)
-				if !isCall || calleeFn(sarg) != newStream || c05resolve(sarg.Call.Args[0]) != conn {
-					continue // hello read from some other connection's stream
+			for _, conn := range c05nonNilOrigins(root, r.val) {
+				n++
+				key := fmt.Sprintf("%s#return-conn", fnName(acc))
+				if n > 1 {
+					key = fmt.Sprintf("%s/%d", key, n)
 				}
-				succ, fl, _ := callErrEdges(acc, hc.Value())
-				helloOK = append(helloOK, succ...)
-				fail = append(fail, fl...)
-				e, ne := c.c20idMatchEdges(acc, ads, claim, extractN(hc.Value(), 0), func(v ssa.Value) bool { return c20isParam(v, idP) })
-				eq = append(eq, e...)
-				fail = append(fail, ne...)
-			}
-			okH, p1 := c05passesOneOf(acc, helloOK, r.at)
-			c.Check(okH, rule, key+":hello-read", "returned only after a nil-error hello read from this very connection", "a connection can be returned without a successfully read hello from that same connection", r.at.Pos(), c.describePath(p1)...)
-			okE, p2 := c05passesOneOf(acc, eq, r.at)
-			c.Check(okE, rule, key+":id-match", "returned only on the equal edge of hello ClaimId == connectID", "a connection can be returned without its hello's ClaimId having compared equal to this request's connect id", r.at.Pos(), c.describePath(p2)...)
-			// rejected connections are closed before the loop goes on
-			closes := c20closes(acc, conn)
-			var wit []*ssa.BasicBlock
-			for _, e := range fail {
-				start := Point{e.To(), 0}
-				if p := findPath(start, Target{Instr: accCall}, newCuts().AddInstrs(closes...)); p != nil {
-					wit = p
+				accCall, aidx := c05resultOf(conn.v)
+				if accCall == nil || aidx != 0 || conn.fr == nil || !accCall.Call.IsInvoke() || accCall.Call.Method.Name() != "Accept" || conn.fr.res(accCall.Call.Value) != lnP {
+					c.Violate(rule, key+":accepted", "the returned connection is not one accepted from the reverse-connect listener", r.at.Pos())
+					continue
 				}
-				for _, ret := range c05returns(acc) {
-					if p := findPath(start, Target{Instr: ret}, newCuts().AddInstrs(closes...)); p != nil {
-						wit = p
+				m := &c20Match{hellos: map[c05Call]bool{}, claim: claim, ads: ads, id: idP}
+				for _, hc := range root.calls(rrc.Object()) {
+					sv := hc.fr.res(hc.call.Call.Args[1])
+					sarg, isCall := sv.v.(*ssa.Call)
+					if !isCall || sv.fr == nil || calleeFn(sarg) != newStream || sv.fr.res(sarg.Call.Args[0]) != conn {
+						continue // hello read from some other connection's stream
+					}
+					m.hellos[hc] = true
+				}
+				tg := c20connTg(root, r)
+				okH, p1 := c05dominated(tg, c05newCuts(m.helloOK()))
+				c.Check(okH, rule, key+":hello-read", "returned only after a nil-error hello read from this very connection", "a connection can be returned without a successfully read hello from that same connection", r.at.Pos(), c.describePath(p1)...)
+				okE, p2 := c05dominated(tg, c05newCuts(m.idIs(true)))
+				c.Check(okE, rule, key+":id-match", "returned only on the equal edge of hello ClaimId == connectID", "a connection can be returned without its hello's ClaimId having compared equal to this request's connect id", r.at.Pos(), c.describePath(p2)...)
+				// rejected connections are closed before the loop goes on
+				closes := c05newCuts()
+				for _, f := range root.all() {
+					allInstrs(f.fn, func(_ *ssa.BasicBlock, _ int, in ssa.Instruction) {
+						if call, ok := in.(*ssa.Call); ok && call.Call.IsInvoke() && call.Call.Method.Name() == "Close" && f.res(call.Call.Value) == conn {
+							closes.addInstr(f, call)
+						}
+					})
+				}
+				reject := c05anyFact(m.helloFailed(), m.idIs(false))
+				nFail := 0
+				var wit []*ssa.BasicBlock
+				for _, f := range root.all() {
+					for _, b := range f.fn.Blocks {
+						done := map[int]bool{}
+						for _, o := range c05staticTests(f, b) {
+							if done[o.succ] || !reject(o.t) {
+								continue
+							}
+							done[o.succ] = true
+							nFail++
+							start := c05edgePt(f, b, o.succ)
+							if p := c05path(start, c05Tg{fr: conn.fr, in: accCall}, &c05Cuts{edges: closes.edges, instrs: closes.instrs}); p != nil {
+								wit = p
+							}
+							for _, ret := range c05returns(acc) {
+								if p := c05path(start, c05Tg{fr: root, in: ret}, &c05Cuts{edges: closes.edges, instrs: closes.instrs}); p != nil {
+									wit = p
+								}
+							}
+						}
 					}
 				}
+				c.Check(nFail >= 2 && wit == nil, rule, key+":reject-closes", "a connection whose hello is unreadable or carries another id is closed before the next Accept", "a rejected reverse connection is left open (or no reject edge was found)", accCall.Pos(), c.describePath(wit)...)
 			}
-			c.Check(len(fail) >= 2 && wit == nil, rule, key+":reject-closes", "a connection whose hello is unreadable or carries another id is closed before the next Accept", "a rejected reverse connection is left open (or no reject edge was found)", accCall.Pos(), c.describePath(wit)...)
 		}
 	}
 	c.MinCount(rule, "connection-returning exits of acceptReversed", n, 1)
 	// --- proxyRequestOnStream
-	m := 0
+	k := 0
 	if len(prx.Params) == 8 {
-		connP, strP, idP := prx.Params[1], prx.Params[2], prx.Params[5]
+		root := c.c05rootFrame(prx, stops...)
+		connP, strP, idP := c05V{prx.Params[1], root}, c05V{prx.Params[2], root}, c05V{prx.Params[5], root}
 		for _, r := range c20results(prx, 0) {
 			if isNilConst(r.val) {
 				continue
 			}
-			m++
+			k++
 			key := fmt.Sprintf("%s#return-conn", fnName(prx))
-			if m > 1 {
-				key = fmt.Sprintf("%s/%d", key, m)
+			if k > 1 {
+				key = fmt.Sprintf("%s/%d", key, k)
 			}
-			c.Check(c20isParam(r.val, connP), rule, key+":broker-conn", "the returned connection is the broker connection the request was sent on", "proxyRequestOnStream returns something other than its broker connection", r.at.Pos())
-			var resOK, helloOK, eq []Edge
-			for _, rc := range callsIn(prx, rca.Object()) {
-				if !c20isParam(rc.Common().Args[1], strP) {
+			isBroker := true
+			for _, o := range c05nonNilOrigins(root, r.val) {
+				if o != connP {
+					isBroker = false
+				}
+			}
+			c.Check(isBroker, rule, key+":broker-conn", "the returned connection is the broker connection the request was sent on", "proxyRequestOnStream returns something other than its broker connection", r.at.Pos())
+			replies := map[c05V]bool{}
+			for _, rc := range root.calls(rca.Object()) {
+				if rc.fr.res(rc.call.Call.Args[1]) != strP {
 					continue
 				}
-				reply := extractN(rc.Value(), 0)
-				for _, bc := range callsIn(prx, adb.Object()) {
-					s, isC := constString(bc.Common().Args[1])
-					if !isC || s != resultAttr || c05resolve(bc.Common().Args[0]) != reply {
-						continue
-					}
-					if v := extractN(bc.Value(), 0); v != nil {
-						t, _ := boolEdges(prx, v)
-						resOK = append(resOK, t...)
-					}
+				if ex := extractN(rc.call, 0); ex != nil {
+					replies[c05V{ex, rc.fr}] = true
 				}
 			}
-			for _, hc := range callsIn(prx, rrc.Object()) {
-				if !c20isParam(hc.Common().Args[1], strP) {
-					continue
+			resTrue := c05factBool(true, func(v c05V) bool {
+				bc, idx := c05resultOf(v.v)
+				if bc == nil || idx != 0 || v.fr == nil || calleeFn(bc) != adb || len(bc.Call.Args) != 2 {
+					return false
 				}
-				succ, _, _ := callErrEdges(prx, hc.Value())
-				helloOK = append(helloOK, succ...)
-				e, _ := c.c20idMatchEdges(prx, ads, claim, extractN(hc.Value(), 0), func(v ssa.Value) bool { return c20isParam(v, idP) })
-				eq = append(eq, e...)
+				s, isC := constString(bc.Call.Args[1])
+				return isC && s == resultAttr && replies[v.fr.res(bc.Call.Args[0])]
+			})
+			m := &c20Match{hellos: map[c05Call]bool{}, claim: claim, ads: ads, id: idP}
+			for _, hc := range root.calls(rrc.Object()) {
+				if hc.fr.res(hc.call.Call.Args[1]) == strP {
+					m.hellos[hc] = true
+				}
 			}
-			ok1, p1 := c05passesOneOf(prx, resOK, r.at)
-			c.Check(ok1, rule, key+":result-true", "returned only after the broker's reply carried Result == true", "the broker connection can be returned although the broker did not report success", r.at.Pos(), c.describePath(p1)...)
-			ok2, p2 := c05passesOneOf(prx, helloOK, r.at)
-			c.Check(ok2, rule, key+":hello-read", "returned only after a nil-error hello on the broker stream", "the broker connection can be returned without a hello read from it", r.at.Pos(), c.describePath(p2)...)
-			ok3, p3 := c05passesOneOf(prx, eq, r.at)
-			c.Check(ok3, rule, key+":id-match", "returned only on the equal edge of hello ClaimId == connectID", "the broker connection can be returned without the proxied hello's ClaimId having matched this request's connect id", r.at.Pos(), c.describePath(p3)...)
+			tg := c20connTg(root, r)
+			okR, p1 := c05dominated(tg, c05newCuts(resTrue))
+			c.Check(okR, rule, key+":result-true", "returned only after the broker's reply carried Result == true", "the broker connection can be returned although the broker did not report success", r.at.Pos(), c.describePath(p1)...)
+			okH, p2 := c05dominated(tg, c05newCuts(m.helloOK()))
+			c.Check(okH, rule, key+":hello-read", "returned only after a nil-error hello on the broker stream", "the broker connection can be returned without a hello read from it", r.at.Pos(), c.describePath(p2)...)
+			okE, p3 := c05dominated(tg, c05newCuts(m.idIs(true)))
+			c.Check(okE, rule, key+":id-match", "returned only on the equal edge of hello ClaimId == connectID", "the broker connection can be returned without the proxied hello's ClaimId having matched this request's connect id", r.at.Pos(), c.describePath(p3)...)
 		}
-		c.c20requestCarriesID(rule, prx, idP, func(v ssa.Value) bool { return c20isParam(v, strP) })
+		c.c20requestCarriesID(rule, prx, prx.Params[5], prx.Params[2])
 	} else {
 		c.Undecided(rule, fnName(prx)+"#signature", "unexpected parameter list", prx.Pos())
 	}
-	c.MinCount(rule, "connection-returning exits of proxyRequestOnStream", m, 1)
+	c.MinCount(rule, "connection-returning exits of proxyRequestOnStream", k, 1)
 	ds := c.needFn(rule, "ccb", "dialStandard")
 	if ds != nil && len(ds.Params) == 4 {
 		c.c20requestCarriesID(rule, ds, ds.Params[2], nil)
 	}
-	// the functions between Dial and the two matchers only pass a matched connection up
+	// the functions between dialOne and the two matchers only pass a matched connection up: every function of
+	// the package that dialOne reaches, that itself reaches a matcher, and that returns a net.Conn
 	src := fnSet(prx, ds)
-	k := 0
+	q := 0
 	perFn := map[*ssa.Function]int{}
-	for _, name := range []string{"dialProxy", "proxyRequestDial", "resolveContact", "dialOne"} {
-		f := c.needFn(rule, "ccb", name)
-		if f == nil {
-			continue
+	if one := c.needFn(rule, "ccb", "dialOne"); one != nil {
+		for f := range c.reachableFns([]*ssa.Function{one}, false) {
+			if f == prx || f == ds || f.Parent() != nil || fnPkg(f) != fnPkg(one) {
+				continue
+			}
+			res := f.Signature.Results()
+			if res.Len() == 0 || types.TypeString(res.At(0).Type(), nil) != "net.Conn" {
+				continue
+			}
+			below := c.reachableFns([]*ssa.Function{f}, false)
+			if below[prx] || (ds != nil && below[ds]) {
+				src[f] = true
+			}
 		}
-		src[f] = true
 	}
 	for _, f := range sortedFns(src) {
 		if f == prx || f == ds {
 			continue
 		}
+		root := c.c05rootFrame(f, sortedFns(src)...)
 		for _, r := range c20results(f, 0) {
 			if isNilConst(r.val) {
 				continue
 			}
-			k++
 			perFn[f]++
-			call, idx := originCall(c05resolve(r.val))
-			cl, _ := call.(*ssa.Call)
-			good := cl != nil && idx == 0 && src[calleeFn(cl)] && calleeFn(cl) != f
+			good := true
+			os := c05nonNilOrigins(root, r.val)
+			q += len(os)
+			for _, o := range os {
+				cl, idx := c05resultOf(o.v)
+				if cl == nil || idx != 0 || !src[calleeFn(cl)] || calleeFn(cl) == f {
+					good = false
+				}
+			}
 			key := fnName(f) + "#return-conn"
 			if perFn[f] > 1 {
 				key = fmt.Sprintf("%s/%d", key, perFn[f])
 			}
-			c.Check(good, rule, key+":passed-up", "the connection returned is the one a matcher (or the next function down the dial chain) returned", "a connection is returned that did not come from dialStandard / proxyRequestOnStream (no identifier match stands behind it)", r.at.Pos())
+			c.Check(good && len(os) > 0, rule, key+":passed-up", "the connection returned is the one a matcher (or the next function down the dial chain) returned", "a connection is returned that did not come from dialStandard / proxyRequestOnStream (no identifier match stands behind it)", r.at.Pos())
 		}
 	}
-	c.MinCount(rule, "connection-returning exits between Dial and the matchers", k, 6)
+	c.MinCount(rule, "connection-returning exits between dialOne and the matchers", q, 1)
 }
 
-// c20requestCarriesID: the request ad written to the broker has ClaimId = the function's connectID.
-func (c *Ctx) c20requestCarriesID(rule string, fn *ssa.Function, idP *ssa.Parameter, onStream func(ssa.Value) bool) {
+// c20requestCarriesID: the request ad written to the broker (by fn or a helper it calls) has
+// ClaimId = the function's connectID.
+func (c *Ctx) c20requestCarriesID(rule string, fn *ssa.Function, idP *ssa.Parameter, strP *ssa.Parameter) {
 	newAd := c.needFn(rule, "ccb", "NewAd")
 	wca := c.needFn(rule, "ccb", "WriteControlAd")
 	claim, ok := c.c20constStr(rule, "ccb", "AttrClaimID")
 	if newAd == nil || wca == nil || !ok {
 		return
 	}
+	root := c.c05rootFrame(fn, newAd, wca)
+	id := c05V{idP, root}
 	good, n := false, 0
-	for _, w := range callsIn(fn, wca.Object()) {
-		if onStream != nil && !onStream(w.Common().Args[1]) {
+	for _, w := range root.calls(wca.Object()) {
+		if strP != nil && w.fr.res(w.call.Call.Args[1]) != (c05V{strP, root}) {
 			continue
 		}
 		n++
-		adCall, isCall := c05resolve(w.Common().Args[2]).(*ssa.Call)
-		if !isCall || calleeFn(adCall) != newAd {
+		ad := w.fr.res(w.call.Call.Args[2])
+		adCall, isCall := ad.v.(*ssa.Call)
+		if !isCall || ad.fr == nil || calleeFn(adCall) != newAd {
 			continue
 		}
-		mp := adCall.Call.Args[0]
-		for _, r := range *mp.Referrers() {
+		mp := ad.fr.res(adCall.Call.Args[0])
+		if mp.fr == nil || mp.v.Referrers() == nil {
+			continue
+		}
+		for _, r := range *mp.v.Referrers() {
 			mu, ok := r.(*ssa.MapUpdate)
-			if !ok || mu.Map != mp {
+			if !ok || mu.Map != mp.v {
 				continue
 			}
-			if k, isC := constString(mu.Key); isC && k == claim && c20isParam(mu.Value, idP) {
+			if k, isC := constString(mu.Key); isC && k == claim && mp.fr.res(mu.Value) == id {
 				good = true
 			}
 		}
@@ -331,110 +392,152 @@ func c20r2(c *Ctx) {
 				c.Undecided(rule, chain+":args", "call shape", cs.Call.Pos())
 				continue
 			}
-			v := c05resolve(args[idx])
 			link := chain + "<-" + fnName(topFn(cs.Fn))
-			switch x := v.(type) {
-			case *ssa.Parameter:
-				pi := -1
-				for i, q := range x.Parent().Params {
-					if q == x {
-						pi = i
+			ufr := c.c05rootFrame(cs.Fn, gen)
+			for _, o := range ufr.origins(args[idx]) {
+				switch x := o.v.(type) {
+				case *ssa.Parameter:
+					trace(x.Parent(), c05paramIndex(x.Parent(), x), link, depth+1)
+				case *ssa.Extract:
+					call, _ := x.Tuple.(*ssa.Call)
+					if call == nil || calleeFn(call) != gen || x.Index != 0 {
+						c.Violate(rule, link+":origin", "the connect id does not come from GenerateConnectID()", cs.Call.Pos())
+						continue
 					}
-				}
-				trace(x.Parent(), pi, link, depth+1)
-			case *ssa.Extract:
-				call, _ := x.Tuple.(*ssa.Call)
-				if call == nil || calleeFn(call) != gen || x.Index != 0 {
-					c.Violate(rule, link+":origin", "the connect id does not come from GenerateConnectID()", cs.Call.Pos())
-					continue
-				}
-				nOrigins++
-				holder := call.Parent()
-				// the error of GenerateConnectID is tested before the id is used
-				use := ssa.Instruction(cs.Call)
-				for g := cs.Fn; g != holder && g != nil; g = g.Parent() {
-					if mcs := c05closureSites(g); len(mcs) == 1 {
-						use = mcs[0]
+					nOrigins++
+					holder := call.Parent()
+					var okE bool
+					var p []*ssa.BasicBlock
+					if ucall, isPlain := cs.Call.(*ssa.Call); isPlain && o.fr != nil && o.fr.root() == ufr {
+						// generated in the using function or a helper it calls: the nil-error outcome dominates the use
+						gc := c05Call{o.fr, call}
+						okE, p = c05dominated(c05Tg{fr: ufr, in: ucall}, c05newCuts(c05factErrNil(func(y c05Call) bool { return y == gc })))
+					} else {
+						// generated in an enclosing function: the error is tested before the closure using the id is made
+						use := ssa.Instruction(cs.Call)
+						for g := cs.Fn; g != holder && g != nil; g = g.Parent() {
+							if mcs := c05closureSites(g); len(mcs) == 1 {
+								use = mcs[0]
+							}
+						}
+						succ, _, _ := callErrEdges(holder, call)
+						okE, p = c05passesOneOf(holder, succ, use)
 					}
+					c.Check(okE, rule, link+":generated", "fresh GenerateConnectID() result, used only after its error was found nil", "the connect id is used although GenerateConnectID may have failed (empty id)", call.Pos(), c.describePath(p)...)
+					c.Check(perAttempt[holder], rule, link+":per-attempt", "generated inside the per-attempt function chain (dialOne)", "the connect id is generated outside the per-attempt function "+fnName(one)+": several attempts (or requests) would share one id", call.Pos())
+				default:
+					c.Violate(rule, link+":origin", fmt.Sprintf("the connect id is not a fresh GenerateConnectID() result (it is a %s: constant, cached or shared value)", strings.TrimPrefix(fmt.Sprintf("%T", o.v), "*ssa.")), cs.Call.Pos())
 				}
-				succ, _, _ := callErrEdges(holder, call)
-				okE, p := c05passesOneOf(holder, succ, use)
-				c.Check(okE, rule, link+":generated", "fresh GenerateConnectID() result, used only after its error was found nil", "the connect id is used although GenerateConnectID may have failed (empty id)", call.Pos(), c.describePath(p)...)
-				c.Check(perAttempt[holder], rule, link+":per-attempt", "generated inside the per-attempt function chain (dialOne)", "the connect id is generated outside the per-attempt function "+fnName(one)+": several attempts (or requests) would share one id", call.Pos())
-			default:
-				c.Violate(rule, link+":origin", fmt.Sprintf("the connect id is not a fresh GenerateConnectID() result (it is a %s: constant, cached or shared value)", strings.TrimPrefix(fmt.Sprintf("%T", v), "*ssa.")), cs.Call.Pos())
 			}
 		}
 	}
 	if len(acc.Params) == 3 {
 		trace(acc, 2, fnName(acc), 0)
 	}
+	c.MinCount(rule, "GenerateConnectID origins reaching the comparison in acceptReversed", nOrigins, 1)
+	nAcc := nOrigins
 	if len(prx.Params) == 8 {
 		trace(prx, 5, fnName(prx), 0)
 	}
-	c.MinCount(rule, "GenerateConnectID origins reaching the comparisons", nOrigins, 3)
+	c.MinCount(rule, "GenerateConnectID origins reaching the comparison in proxyRequestOnStream", nOrigins-nAcc, 1)
 	// dialOne runs once per broker attempt: called from a goroutine body nested in Dial
+	// (a closure of Dial started with go, or a same-package function started with go from Dial or one of
+	// its closures, possibly through helpers called only from there)
+	var perGo func(fn *ssa.Function, depth int) bool
+	perGo = func(fn *ssa.Function, depth int) bool {
+		if depth > c05MaxDepth {
+			return false
+		}
+		if fn.Parent() != nil { // closure: every MakeClosure of it is the operand of a go statement in Dial
+			if topFn(fn) != dial {
+				return false
+			}
+			mcs := c05closureSites(fn)
+			launched := len(mcs) > 0
+			for _, mc := range mcs {
+				isGo := false
+				for _, r := range *mc.Referrers() {
+					if g, ok := r.(*ssa.Go); ok && g.Call.Value == ssa.Value(mc) {
+						isGo = true
+					}
+				}
+				launched = launched && isGo
+			}
+			return launched
+		}
+		if fn.Object() == nil || len(c.c05funcValueUses(fn)) > 0 {
+			return false
+		}
+		ss := c.callSites(fn.Object())
+		if len(ss) == 0 {
+			return false
+		}
+		for _, cs := range ss {
+			if _, isGo := cs.Call.(*ssa.Go); isGo && topFn(cs.Fn) == dial {
+				continue
+			}
+			if _, plain := cs.Call.(*ssa.Call); plain && perGo(cs.Fn, depth+1) {
+				continue
+			}
+			return false
+		}
+		return true
+	}
 	sites := c.callSites(one.Object())
 	good := len(sites) > 0
 	for _, cs := range sites {
-		if topFn(cs.Fn) != dial || cs.Fn.Parent() == nil {
+		if _, plain := cs.Call.(*ssa.Call); !plain || !perGo(cs.Fn, 0) {
 			good = false
-			continue
 		}
-		launched := false
-		for _, mc := range c05closureSites(cs.Fn) {
-			for _, r := range *mc.Referrers() {
-				if g, ok := r.(*ssa.Go); ok && g.Call.Value == ssa.Value(mc) {
-					launched = true
-				}
-			}
-		}
-		good = good && launched
 	}
 	c.Check(good, rule, fnName(one)+"#per-attempt", "dialOne is called only from the goroutine Dial starts per broker attempt", "dialOne is not (only) the per-attempt goroutine body of Dial: 'per attempt' freshness of the id is not established", one.Pos())
-	// GenerateConnectID itself
-	var readCall *ssa.Call
-	nCalls := 0
-	allInstrs(gen, func(_ *ssa.BasicBlock, _ int, in ssa.Instruction) {
-		call, ok := in.(ssa.CallInstruction)
-		if !ok {
-			return
-		}
-		o := calleeObj(call)
-		if o == nil || o.Pkg() == nil {
-			return
-		}
-		nCalls++
-		switch o.Pkg().Path() {
-		case "math/rand", "math/rand/v2":
-			c.Violate(rule, fnName(gen)+"#math-rand", "GenerateConnectID calls "+o.Pkg().Path()+"."+o.Name()+": the connect id must not depend on a predictable generator", call.Pos())
-		case "crypto/rand":
-			if cl, isCall := call.(*ssa.Call); isCall && o.Name() == "Read" {
-				readCall = cl
+	// GenerateConnectID itself (seen together with its same-package helpers)
+	groot := c.c05rootFrame(gen)
+	var readCall c05Call
+	for _, f := range groot.all() {
+		allInstrs(f.fn, func(_ *ssa.BasicBlock, _ int, in ssa.Instruction) {
+			call, ok := in.(ssa.CallInstruction)
+			if !ok {
+				return
 			}
-		}
-	})
-	if readCall == nil {
+			o := calleeObj(call)
+			if o == nil || o.Pkg() == nil {
+				return
+			}
+			switch o.Pkg().Path() {
+			case "math/rand", "math/rand/v2":
+				c.Violate(rule, fnName(gen)+"#math-rand", "GenerateConnectID calls "+o.Pkg().Path()+"."+o.Name()+": the connect id must not depend on a predictable generator", call.Pos())
+			case "crypto/rand":
+				if cl, isCall := call.(*ssa.Call); isCall && o.Name() == "Read" {
+					readCall = c05Call{f, cl}
+				}
+			}
+		})
+	}
+	if readCall.call == nil {
 		c.Violate(rule, fnName(gen)+"#crypto-rand", "GenerateConnectID does not fill the id from crypto/rand.Read", gen.Pos())
 		return
 	}
-	buf := memRoot(readCall.Call.Args[0])
+	buf := readCall.fr.res(memRoot(readCall.call.Call.Args[0]))
+	buf.v = memRoot(buf.v)
 	ln := int64(0)
-	switch b := buf.(type) {
+	switch b := buf.v.(type) {
 	case *ssa.MakeSlice:
-		ln, _ = constInt(b.Len)
+		if k, isC := constInt(buf.fr.res(b.Len).v); isC {
+			ln = k
+		}
 	case *ssa.Alloc: // make([]byte, const) is an array allocation plus a slice
 		if arr, ok := b.Type().Underlying().(*types.Pointer).Elem().Underlying().(*types.Array); ok {
 			ln = arr.Len()
 		}
 	}
-	c.Check(ln >= 20, rule, fnName(gen)+"#entropy", fmt.Sprintf("%d random bytes (>= 160 bit)", ln), "the random buffer is shorter than 20 bytes or its size is not a constant", readCall.Pos())
-	succ, _, _ := callErrEdges(gen, readCall)
+	c.Check(ln >= 20, rule, fnName(gen)+"#entropy", fmt.Sprintf("%d random bytes (>= 160 bit)", ln), "the random buffer is shorter than 20 bytes or its size is not a constant", readCall.call.Pos())
+	readOK := c05factErrNil(func(x c05Call) bool { return x == readCall })
 	for _, t := range c.successTargets(gen) {
-		p := findPath(entryPoint(gen), t.Target(), newCuts().AddEdges(succ...))
+		p := c05path(c05entryPt(groot), c05errTg(groot, t), c05newCuts(readOK))
 		key := fmt.Sprintf("%s#return%d", fnName(gen), retOrdinal(gen, t.Ret))
 		c.Check(p == nil, rule, key+":rand-ok", "an id is returned only after crypto/rand.Read succeeded", "an id can be returned although crypto/rand.Read failed (predictable buffer)", t.Ret.Pos(), c.describePath(p)...)
-		dep := mustDepend(gen, t.Ret.Results[0], func(v ssa.Value) bool { return v == buf })
+		dep := c05dependsOn(groot, t.Ret.Results[0], func(v c05V) bool { return v == buf })
 		c.Check(dep, rule, key+":from-buffer", "the returned id is derived from the random buffer", "the returned id does not depend on the bytes crypto/rand filled", t.Ret.Pos())
 	}
 }
@@ -460,73 +563,80 @@ func c20r3(c *Ctx) {
 		c.Undecided(rule, "signature", "unexpected parameter lists", rra.Pos())
 		return
 	}
-	msgP, cmdP := rra.Params[1], rra.Params[2]
-	var eq []Edge
-	for _, b := range rra.Blocks {
-		a, e, _, ok := c05eqEdges(b)
-		if !ok {
-			continue
+	aroot := c.c05rootFrame(rra)
+	msgP, cmdP := c05V{rra.Params[1], aroot}, c05V{rra.Params[2], aroot}
+	isHello := func(t c05Test) bool {
+		x, y, eq, ok := c05eqTest(t.v.v)
+		if !ok || t.v.fr == nil {
+			return false
 		}
-		x, y := a.X, a.Y
 		if v, isC := constInt(x); isC && v == want {
 			x, y = y, x
 		}
-		if v, isC := constInt(y); isC && v == want && c20isParam(x, cmdP) {
-			eq = append(eq, e)
-		}
+		v, isC := constInt(y)
+		return isC && v == want && t.v.fr.res(x) == cmdP && eq == t.truth
 	}
 	n := 0
 	for _, r := range c20results(rra, 0) {
 		if isNilConst(r.val) {
 			continue
 		}
-		n++
-		key := fmt.Sprintf("%s#return-ad", fnName(rra))
-		if n > 1 {
-			key = fmt.Sprintf("%s/%d", key, n)
-		}
-		okC, p := c05passesOneOf(rra, eq, r.at)
-		c.Check(okC, rule, key+":command", "an ad is returned only when cmd == CCB_REVERSE_CONNECT", "a hello with another command integer is accepted", r.at.Pos(), c.describePath(p)...)
-		call, idx := originCall(c05resolve(r.val))
-		cl, _ := call.(*ssa.Call)
-		good := cl != nil && idx == 0 && calleeFn(cl) == getAd && c20isParam(cl.Call.Args[0], msgP)
-		if good {
-			v, isC := constInt(cl.Call.Args[2])
-			good = isC && v == capV && v > 0
-		}
-		c.Check(good, rule, key+":capped-reader", "the ad comes from GetClassAdWithMaxSize(maxControlAdSize) on the message the command was read from", "the hello ad is not read through the size-capped reader on the same message", r.at.Pos())
-		if good {
-			succ, _, _ := callErrEdges(rra, cl)
-			okE, p2 := c05passesOneOf(rra, succ, r.at)
-			c.Check(okE, rule, key+":read-ok", "returned only after the reader's error was nil", "an ad is returned although reading it failed", r.at.Pos(), c.describePath(p2)...)
+		for _, ad := range c05nonNilOrigins(aroot, r.val) {
+			n++
+			key := fmt.Sprintf("%s#return-ad", fnName(rra))
+			if n > 1 {
+				key = fmt.Sprintf("%s/%d", key, n)
+			}
+			tg := c20connTg(aroot, r)
+			okC, p := c05dominated(tg, c05newCuts(isHello))
+			c.Check(okC, rule, key+":command", "an ad is returned only when cmd == CCB_REVERSE_CONNECT", "a hello with another command integer is accepted", r.at.Pos(), c.describePath(p)...)
+			cl, idx := c05resultOf(ad.v)
+			good := cl != nil && idx == 0 && ad.fr != nil && calleeFn(cl) == getAd && ad.fr.res(cl.Call.Args[0]) == msgP
+			if good {
+				v, isC := constInt(ad.fr.res(cl.Call.Args[2]).v)
+				good = isC && v == capV && v > 0
+			}
+			c.Check(good, rule, key+":capped-reader", "the ad comes from GetClassAdWithMaxSize(maxControlAdSize) on the message the command was read from", "the hello ad is not read through the size-capped reader on the same message", r.at.Pos())
+			if good {
+				rd := c05Call{ad.fr, cl}
+				okE, p2 := c05dominated(tg, c05newCuts(c05factErrNil(func(x c05Call) bool { return x == rd })))
+				c.Check(okE, rule, key+":read-ok", "returned only after the reader's error was nil", "an ad is returned although reading it failed", r.at.Pos(), c.describePath(p2)...)
+			}
 		}
 	}
 	c.MinCount(rule, "ad-returning exits of ReadReverseConnectAd", n, 1)
 	// readReverseConnect
+	rroot := c.c05rootFrame(rrc, rra)
 	k := 0
-	for _, cs := range callsIn(rrc, rra.Object()) {
+	for _, cs := range rroot.calls(rra.Object()) {
 		k++
-		a := cs.Common().Args
-		msg := c05resolve(a[1])
-		mcall, _ := msg.(*ssa.Call)
-		fresh := mcall != nil && calleeFn(mcall) == nmfs && c20isParam(mcall.Call.Args[0], rrc.Params[1])
-		c.Check(fresh, rule, fnName(rrc)+"#message", "reads from a fresh message on the given stream", "the hello is not read from a fresh message on the stream passed in", cs.Pos())
-		gcall, gi := originCall(c05resolve(a[2]))
-		gc, _ := gcall.(*ssa.Call)
-		good := gc != nil && gi == 0 && calleeFn(gc) == getInt && c05resolve(gc.Call.Args[0]) == msg
+		a := cs.call.Call.Args
+		msg := cs.fr.res(a[1])
+		mcall, _ := msg.v.(*ssa.Call)
+		fresh := mcall != nil && msg.fr != nil && calleeFn(mcall) == nmfs && msg.fr.res(mcall.Call.Args[0]) == (c05V{rrc.Params[1], rroot})
+		c.Check(fresh, rule, fnName(rrc)+"#message", "reads from a fresh message on the given stream", "the hello is not read from a fresh message on the stream passed in", cs.call.Pos())
+		cv := cs.fr.res(a[2])
+		gc, gi := c05resultOf(cv.v)
+		good := gc != nil && gi == 0 && cv.fr != nil && calleeFn(gc) == getInt && cv.fr.res(gc.Call.Args[0]) == msg
 		if good {
-			succ, _, _ := callErrEdges(rrc, gc)
-			good, _ = c05passesOneOf(rrc, succ, cs)
+			rd := c05Call{cv.fr, gc}
+			good, _ = c05dominated(c05Tg{fr: cs.fr, in: cs.call}, c05newCuts(c05factErrNil(func(x c05Call) bool { return x == rd })))
 		}
-		c.Check(good, rule, fnName(rrc)+"#command", "the command handed on is the integer just read (nil error) from that message", "the command integer validated is not the one read from the hello message", cs.Pos())
+		c.Check(good, rule, fnName(rrc)+"#command", "the command handed on is the integer just read (nil error) from that message", "the command integer validated is not the one read from the hello message", cs.call.Pos())
 	}
 	for _, r := range c20results(rrc, 0) {
 		if isNilConst(r.val) {
 			continue
 		}
-		call, idx := originCall(c05resolve(r.val))
-		cl, _ := call.(*ssa.Call)
-		c.Check(cl != nil && idx == 0 && calleeFn(cl) == rra, rule, fnName(rrc)+"#return-ad", "every ad returned went through ReadReverseConnectAd", "readReverseConnect returns an ad that bypassed the command validation", r.at.Pos())
+		good := true
+		os := c05nonNilOrigins(rroot, r.val)
+		for _, o := range os {
+			cl, idx := c05resultOf(o.v)
+			if cl == nil || idx != 0 || calleeFn(cl) != rra {
+				good = false
+			}
+		}
+		c.Check(good && len(os) > 0, rule, fnName(rrc)+"#return-ad", "every ad returned went through ReadReverseConnectAd", "readReverseConnect returns an ad that bypassed the command validation", r.at.Pos())
 	}
 	c.MinCount(rule, "ReadReverseConnectAd calls in readReverseConnect", k, 1)
 }
@@ -537,9 +647,11 @@ func c20r3(c *Ctx) {
 // c20recv describes a value received in a select: the struct cell it is stored in (if any), the
 // channel, and the select.
 type c20Recv struct {
+	fr    *c05Frame // frame the select lives in
 	sel   *ssa.Select
 	state int
 	val   ssa.Value // Extract of the received value
+	cell  ssa.Value // struct variable the received value is kept in (nil when used directly)
 	ch    ssa.Value // resolved channel (MakeChan)
 }
 
@@ -571,9 +683,47 @@ func c20chan(v ssa.Value) ssa.Value {
 	return c05resolve(mk)
 }
 
-// c20recvOf: v is (a field of a struct cell holding) a value received by a select in fn.
-func c20recvOf(v ssa.Value) (c20Recv, *types.Var, bool) {
+// c20chanF is c20chan seen from a frame: a helper's channel parameter denotes the caller's channel, and
+// a parameter that is reassigned nil inside a loop (a phi of the channel and nil) still denotes it.
+func c20chanF(fr *c05Frame, v ssa.Value) ssa.Value {
+	leaves := map[ssa.Value]bool{}
+	seen := map[c05V]bool{}
+	var walk func(f *c05Frame, v ssa.Value, d int)
+	walk = func(f *c05Frame, v ssa.Value, d int) {
+		r := f.res(v)
+		x := c20chan(r.v)
+		if x != r.v {
+			r = f.res(x)
+			x = r.v
+		}
+		if seen[c05V{x, r.fr}] || d > 12 {
+			return
+		}
+		seen[c05V{x, r.fr}] = true
+		if isNilConst(x) {
+			return
+		}
+		if phi, ok := x.(*ssa.Phi); ok && r.fr != nil {
+			for _, e := range phi.Edges {
+				walk(r.fr, e, d+1)
+			}
+			return
+		}
+		leaves[x] = true
+	}
+	walk(fr, v, 0)
+	if len(leaves) == 1 {
+		for x := range leaves {
+			return x
+		}
+	}
+	return fr.res(v).v
+}
+
+// c20recvOf: v (a value of frame fr) is (a field of a struct cell holding) a value received by a select.
+func c20recvOf(fr *c05Frame, v ssa.Value) (c20Recv, *types.Var, bool) {
 	var field *types.Var
+	var cellV ssa.Value
 	v = c05resolve(v)
 	if ld, ok := v.(*ssa.UnOp); ok && ld.Op == token.MUL {
 		if fa, ok := ld.X.(*ssa.FieldAddr); ok {
@@ -586,7 +736,7 @@ func c20recvOf(v ssa.Value) (c20Recv, *types.Var, bool) {
 			if len(st) != 1 {
 				return c20Recv{}, nil, false
 			}
-			v = st[0].Val
+			v, cellV = st[0].Val, cell
 		}
 	}
 	ex, ok := v.(*ssa.Extract)
@@ -597,6 +747,9 @@ func c20recvOf(v ssa.Value) (c20Recv, *types.Var, bool) {
 	if !ok || ex.Index < 2 {
 		return c20Recv{}, nil, false
 	}
+	if h := fr.home(sel); h != nil {
+		fr = h
+	}
 	// received values are numbered in order of the receive states
 	k := ex.Index - 2
 	for i, s := range sel.States {
@@ -604,106 +757,126 @@ func c20recvOf(v ssa.Value) (c20Recv, *types.Var, bool) {
 			continue
 		}
 		if k == 0 {
-			return c20Recv{sel: sel, state: i, val: ex, ch: c20chan(s.Chan)}, field, true
+			return c20Recv{fr: fr, sel: sel, state: i, val: ex, cell: cellV, ch: c20chanF(fr, s.Chan)}, field, true
 		}
 		k--
 	}
 	return c20Recv{}, nil, false
 }
 
-// c20sends lists the Send instructions on channel ch in fn and its closures.
-func c20sends(fn *ssa.Function, ch ssa.Value) []*ssa.Send {
-	var out []*ssa.Send
-	for _, g := range withClosures(fn) {
-		allInstrs(g, func(_ *ssa.BasicBlock, _ int, in ssa.Instruction) {
-			if s, ok := in.(*ssa.Send); ok && c20chan(s.Chan) == ch {
-				out = append(out, s)
+// c20recvOrigin: every non-nil value v may carry (seen from root) was received by one and the same select.
+func c20recvOrigin(root *c05Frame, v ssa.Value) (c20Recv, *types.Var, bool) {
+	var got c20Recv
+	var field *types.Var
+	n := 0
+	for _, o := range c05nonNilOrigins(root, v) {
+		of := o.fr
+		if of == nil {
+			of = root
+		}
+		rv, f, ok := c20recvOf(of, o.v)
+		if !ok || (n > 0 && (rv.val != got.val || f != field)) {
+			return c20Recv{}, nil, false
+		}
+		got, field = rv, f
+		n++
+	}
+	return got, field, n > 0
+}
+
+// c20errNil: the outcome "the error field of the struct the connection was received in is nil".
+func c20errNil(rv c20Recv) c05Fact {
+	return func(t c05Test) bool {
+		if !t.hasNil || !t.isNil || rv.cell == nil || !isErrorType(t.x.v.Type()) {
+			return false
+		}
+		xl, ok := c05resolve(t.x.v).(*ssa.UnOp)
+		if !ok {
+			return false
+		}
+		xfa, ok := xl.X.(*ssa.FieldAddr)
+		return ok && xfa.X == rv.cell
+	}
+}
+
+// c20Send is a Send instruction seen from a frame below the function that owns the channel.
+type c20Send struct {
+	fr *c05Frame
+	s  *ssa.Send
+}
+
+// c20sends lists the Send instructions on channel ch (a value of root's function) in that function,
+// its closures, and the same-package functions it calls, defers or starts with go handing them the channel.
+func c20sends(root *c05Frame, ch ssa.Value) []c20Send {
+	var out []c20Send
+	covered := map[*ssa.Function]bool{}
+	scan := func(f *c05Frame) {
+		covered[f.fn] = true
+		allInstrs(f.fn, func(_ *ssa.BasicBlock, _ int, in ssa.Instruction) {
+			if s, ok := in.(*ssa.Send); ok {
+				if r := f.res(s.Chan); c20chan(r.v) == ch {
+					out = append(out, c20Send{f, s})
+				}
 			}
 		})
+	}
+	for _, f := range root.allAny() {
+		scan(f)
+	}
+	// closures that are never called statically (stored, passed on)
+	for _, g := range withClosures(root.fn) {
+		if !covered[g] {
+			scan(&c05Frame{p: root.p, fn: g, stop: root.stop, kids: map[ssa.CallInstruction]*c05Frame{}})
+		}
 	}
 	return out
 }
 
-// c20sentField: the value stored in field f of the struct value sent by s (or the sent value itself when f == nil).
-func c20sentField(s *ssa.Send, f *types.Var) ssa.Value {
+// c20sentField: the value stored in field f of the struct value sent by s (or the sent value itself
+// when f == nil), resolved from the sender's frame.
+func c20sentField(s c20Send, f *types.Var) c05V {
 	if f == nil {
-		return c05resolve(s.X)
+		return s.fr.res(s.s.X)
 	}
-	ld, ok := s.X.(*ssa.UnOp)
+	ld, ok := s.s.X.(*ssa.UnOp)
 	if !ok {
-		return nil
+		return c05V{}
 	}
 	cell, ok := ld.X.(*ssa.Alloc)
 	if !ok {
-		return nil
+		return c05V{}
 	}
 	vals := c05fieldStores(cell, f)
 	if len(vals) != 1 {
-		return nil
+		return c05V{}
 	}
-	return c05resolve(vals[0])
+	return s.fr.res(vals[0])
 }
 
-// c20errFieldNilEdges: edges on which field #1 (the error) of the same received struct is nil.
-func c20errNilEdges(fn *ssa.Function, connVal ssa.Value) []Edge {
-	v := c05resolve(connVal)
-	ld, ok := v.(*ssa.UnOp)
-	if !ok {
-		return nil
-	}
-	fa, ok := ld.X.(*ssa.FieldAddr)
-	if !ok {
-		return nil
-	}
-	cell := fa.X
-	var out []Edge
-	for _, b := range fn.Blocks {
-		a, eq, _, ok := c05eqEdges(b)
-		if !ok {
-			continue
-		}
-		x, y := a.X, a.Y
-		if isNilConst(x) {
-			x, y = y, x
-		}
-		if !isNilConst(y) || !isErrorType(x.Type()) {
-			continue
-		}
-		xl, ok := x.(*ssa.UnOp)
-		if !ok {
-			continue
-		}
-		xfa, ok := xl.X.(*ssa.FieldAddr)
-		if ok && xfa.X == cell {
-			out = append(out, eq)
-		}
-	}
-	return out
-}
-
-// c20deferCloses: the Defer instructions of fn whose closure invokes Close on the variable that
-// holds result #idx of the call `acq`.
-func c20deferCloses(fn *ssa.Function, acq *ssa.Call, idx int) []ssa.Instruction {
+// c20deferCloses: the Defer instructions of fn whose callee (a closure or a same-package helper, seen
+// with the helpers it calls) invokes Close on the value that is result #idx of the call `acq`.
+func (c *Ctx) c20deferCloses(fn *ssa.Function, acq *ssa.Call, idx int) []ssa.Instruction {
 	var out []ssa.Instruction
+	root := c.c05rootFrame(fn)
+	ex := extractN(acq, idx)
+	if ex == nil {
+		return nil
+	}
+	want := root.res(ex)
 	for _, d := range deferredCallees(fn) {
-		mc, ok := d.Call.Value.(*ssa.MakeClosure)
-		if !ok {
-			continue
-		}
-		g, _ := mc.Fn.(*ssa.Function)
-		if g == nil {
+		k := root.kidAny(d)
+		if k == nil {
 			continue
 		}
 		hit := false
-		allInstrs(g, func(_ *ssa.BasicBlock, _ int, in ssa.Instruction) {
-			call, ok := in.(*ssa.Call)
-			if !ok || !call.Call.IsInvoke() || call.Call.Method.Name() != "Close" {
-				return
-			}
-			if ex, ok := c05resolve(call.Call.Value).(*ssa.Extract); ok && ex.Tuple == ssa.Value(acq) && ex.Index == idx {
-				hit = true
-			}
-		})
+		for _, f := range k.all() {
+			allInstrs(f.fn, func(_ *ssa.BasicBlock, _ int, in ssa.Instruction) {
+				call, ok := in.(*ssa.Call)
+				if ok && call.Call.IsInvoke() && call.Call.Method.Name() == "Close" && f.res(call.Call.Value) == want {
+					hit = true
+				}
+			})
+		}
 		if hit {
 			out = append(out, d)
 		}
@@ -718,10 +891,7 @@ func c20r4(c *Ctx) {
 	c.Doc(rule, "dialStandard returns a non-nil connection only from the accept channel, whose only sender sends the result of acceptReversed(ctx, this listener, this connectID), and only when that result's error is nil; a non-nil broker reply ends the attempt with that error and no connection; a success reply returns nothing; every exit after acquisition runs the deferred Close of the listener and of the broker connection")
 	ds := c.needFn(rule, "ccb", "dialStandard")
 	acc := c.needFn(rule, "ccb", "acceptReversed")
-	rbf := c.needFn(rule, "ccb", "readBrokerFailure")
-	nrl := c.needFn(rule, "ccb", "newReverseListener")
-	dba := c.needFn(rule, "ccb", "dialBrokerAuth")
-	if ds == nil || acc == nil || rbf == nil || nrl == nil || dba == nil {
+	if ds == nil || acc == nil {
 		return
 	}
 	if len(ds.Params) != 4 {
@@ -729,77 +899,103 @@ func c20r4(c *Ctx) {
 		return
 	}
 	idP := ds.Params[2]
-	var lnCall, brCall *ssa.Call
-	for _, cs := range callsIn(ds, nrl.Object()) {
-		lnCall, _ = cs.(*ssa.Call)
+	dsRoot := c.c05rootFrame(ds, acc)
+	// the listener of this attempt: the call in dialStandard whose result is handed to acceptReversed;
+	// the broker connection(s): calls in dialStandard that yield a net.Conn (and an error) which is not
+	// what dialStandard returns
+	var lnCall *ssa.Call
+	lnOK := true
+	for _, ac := range dsRoot.allAnyCalls(acc.Object()) {
+		a := ac.call.Common().Args
+		if len(a) != 3 {
+			continue
+		}
+		lv := ac.fr.res(a[1])
+		cl, idx := c05resultOf(lv.v)
+		if cl == nil || idx != 0 || lv.fr != dsRoot || types.TypeString(lv.v.Type(), nil) != "net.Listener" || (lnCall != nil && lnCall != cl) {
+			lnOK = false
+			continue
+		}
+		lnCall = cl
 	}
-	for _, cs := range callsIn(ds, dba.Object()) {
-		brCall, _ = cs.(*ssa.Call)
+	returned := map[ssa.Value]bool{}
+	for _, r := range c20results(ds, 0) {
+		for _, o := range dsRoot.origins(r.val) {
+			returned[o.v] = true
+		}
+		returned[c05resolve(r.val)] = true
 	}
-	if lnCall == nil || brCall == nil {
+	var brCalls []*ssa.Call
+	allInstrs(ds, func(_ *ssa.BasicBlock, _ int, in ssa.Instruction) {
+		cl, ok := in.(*ssa.Call)
+		if !ok {
+			return
+		}
+		tup, isTuple := cl.Type().(*types.Tuple)
+		if !isTuple || tup.Len() < 2 || types.TypeString(tup.At(0).Type(), nil) != "net.Conn" || !isErrorType(tup.At(tup.Len()-1).Type()) {
+			return
+		}
+		if ex := extractN(cl, 0); ex != nil && !returned[ex] {
+			brCalls = append(brCalls, cl)
+		}
+	})
+	if lnCall == nil || !lnOK || len(brCalls) == 0 {
 		c.Undecided(rule, fnName(ds)+"#acquire", "listener / broker acquisition calls not found", ds.Pos())
 		return
 	}
 	n := 0
-	var sel *ssa.Select
-	var connAts []ssa.Instruction
+	var recv *c20Recv
+	var connTgs []c05Tg
 	for _, r := range c20results(ds, 0) {
 		if isNilConst(r.val) {
 			continue
 		}
 		n++
-		connAts = append(connAts, r.at)
+		tg := c20connTg(dsRoot, r)
+		connTgs = append(connTgs, tg)
 		key := fmt.Sprintf("%s#return-conn", fnName(ds))
 		if n > 1 {
 			key = fmt.Sprintf("%s/%d", key, n)
 		}
-		rv, field, ok := c20recvOf(r.val)
+		rv, field, ok := c20recvOrigin(dsRoot, r.val)
 		if !ok {
 			c.Violate(rule, key+":from-accept-channel", "a connection is returned that was not received from the accept channel", r.at.Pos())
 			continue
 		}
-		sel = rv.sel
-		sends := c20sends(ds, rv.ch)
+		recv = &rv
+		sends := c20sends(dsRoot, rv.ch)
 		good := len(sends) > 0
 		for _, s := range sends {
 			v := c20sentField(s, field)
-			ex, _ := v.(*ssa.Extract)
-			var call *ssa.Call
-			if ex != nil {
-				call, _ = ex.Tuple.(*ssa.Call)
-			}
-			if call == nil || ex.Index != 0 || calleeFn(call) != acc {
+			call, ridx := c05resultOf(v.v)
+			if call == nil || ridx != 0 || v.fr == nil || calleeFn(call) != acc {
 				good = false
 				continue
 			}
 			a := call.Call.Args
-			lnv, _ := c05resolve(a[1]).(*ssa.Extract)
-			if !c20isParam(a[2], idP) || lnv == nil || lnv.Tuple != ssa.Value(lnCall) || lnv.Index != 0 {
+			lnv, _ := v.fr.res(a[1]).v.(*ssa.Extract)
+			if v.fr.res(a[2]).v != ssa.Value(idP) || lnv == nil || lnv.Tuple != ssa.Value(lnCall) || lnv.Index != 0 {
 				good = false
 			}
 		}
 		c.Check(good, rule, key+":from-accept-channel", "the returned connection was sent by the accept goroutine: acceptReversed(ctx, this attempt's listener, this attempt's connectID)", "the channel the returned connection comes from is also fed by something other than acceptReversed on this attempt's listener and connect id", r.at.Pos())
-		okE, p := c05passesOneOf(ds, c20errNilEdges(ds, r.val), r.at)
+		okE, p := c05dominated(tg, c05newCuts(c20errNil(rv)))
 		c.Check(okE, rule, key+":accept-ok", "returned only when the accept result's error is nil", "a connection is returned without testing the error that came with it", r.at.Pos(), c.describePath(p)...)
 	}
 	c.MinCount(rule, "connection-returning exits of dialStandard", n, 1)
 	// the reply channel
-	if sel != nil {
+	if recv != nil {
+		sel, sf := recv.sel, recv.fr
 		found := 0
 		for i, st := range sel.States {
 			if st.Dir != types.RecvOnly {
 				continue
 			}
-			ch := c20chan(st.Chan)
-			sends := c20sends(ds, ch)
-			isReply := len(sends) > 0
-			for _, s := range sends {
-				call, _ := c05resolve(s.X).(*ssa.Call)
-				if call == nil || calleeFn(call) != rbf {
-					isReply = false
-				}
-			}
-			if !isReply {
+			ch := c20chanF(sf, st.Chan)
+			sends := c20sends(dsRoot, ch)
+			// the broker's reply: the other receive case of the same select that carries an error value
+			chT, _ := st.Chan.Type().Underlying().(*types.Chan)
+			if i == recv.state || chT == nil || !isErrorType(chT.Elem()) || len(sends) == 0 {
 				continue
 			}
 			found++
@@ -820,48 +1016,88 @@ func c20r4(c *Ctx) {
 				c.Violate(rule, fnName(ds)+"#broker-reply:examined", "the broker's reply is received but never examined", sel.Pos())
 				continue
 			}
-			nilE, nonNil := nilEdges(ds, rv)
+			// outcomes of the nil tests on the received reply
+			al := aliases(sf.fn, rv)
+			var nilPts, nonNilPts []c05Pt
+			for _, b := range sf.fn.Blocks {
+				for _, o := range c05staticTests(sf, b) {
+					if !o.t.hasNil || o.t.x.fr != sf || !al[o.t.x.v] {
+						continue
+					}
+					if o.t.isNil {
+						nilPts = append(nilPts, c05edgePt(sf, b, o.succ))
+					} else {
+						nonNilPts = append(nonNilPts, c05edgePt(sf, b, o.succ))
+					}
+				}
+			}
+			isReplyVal := func(v c05V) bool { return v.fr == sf && v.v == rv }
 			// failure: ends the attempt, with that error, without a connection
 			var wit []*ssa.BasicBlock
 			carries := false
-			for _, e := range nonNil {
-				start := Point{e.To(), 0}
-				if p := findPath(start, Target{Instr: sel}, nil); p != nil {
+			for _, start := range nonNilPts {
+				if p := c05path(start, c05Tg{fr: sf, in: sel}, nil); p != nil {
 					wit = p
 				}
-				for _, at := range connAts {
-					if p := findPath(start, Target{Instr: at}, nil); p != nil {
+				for _, tg := range connTgs {
+					if p := c05path(start, tg, nil); p != nil {
 						wit = p
 					}
 				}
-				for _, er := range c20results(ds, 1) {
-					if findPath(start, Target{Instr: er.at}, nil) != nil && mustDepend(ds, er.val, func(v ssa.Value) bool { return v == rv }) {
-						carries = true
+				if sf == dsRoot {
+					for _, er := range c20results(ds, 1) {
+						if c05path(start, c05Tg{fr: dsRoot, in: er.at}, nil) != nil && c05dependsOn(dsRoot, er.val, isReplyVal) {
+							carries = true
+						}
+					}
+				} else {
+					// the loop lives in a helper: the helper returns the reply's error and the function hands it up
+					for _, kr := range sf.retVals(sf.fn.Signature.Results().Len() - 1) {
+						if c05path(start, c05Tg{fr: sf, in: kr.ret, pred: kr.pred}, nil) == nil || !c05dependsOn(sf, kr.val, isReplyVal) {
+							continue
+						}
+						want := sf.res(kr.val)
+						for _, er := range c20results(ds, 1) {
+							for _, o := range dsRoot.origins(er.val) {
+								if o == want {
+									carries = true
+								}
+							}
+						}
 					}
 				}
 			}
-			c.Check(len(nonNil) > 0 && wit == nil, rule, fnName(ds)+"#broker-failure:ends-attempt", "a failure reply leaves the wait loop and returns no connection", "after a failure reply the dial keeps waiting or can still return a connection", sel.Pos(), c.describePath(wit)...)
+			c.Check(len(nonNilPts) > 0 && wit == nil, rule, fnName(ds)+"#broker-failure:ends-attempt", "a failure reply leaves the wait loop and returns no connection", "after a failure reply the dial keeps waiting or can still return a connection", sel.Pos(), c.describePath(wit)...)
 			c.Check(carries, rule, fnName(ds)+"#broker-failure:error", "the broker's error is what the attempt returns", "a failure reported by the broker is not the error returned", sel.Pos())
 			// success: returns nothing by itself
 			wit = nil
-			for _, e := range nilE {
+			for _, start := range nilPts {
 				for _, ret := range c05returns(ds) {
-					if p := findPath(Point{e.To(), 0}, Target{Instr: ret}, newCuts().AddInstrs(sel)); p != nil {
+					if p := c05path(start, c05Tg{fr: dsRoot, in: ret}, c05newCuts().addInstr(sf, sel)); p != nil {
 						wit = p
 					}
 				}
 			}
-			c.Check(len(nilE) > 0 && wit == nil, rule, fnName(ds)+"#broker-success:keeps-waiting", "a success reply only continues the wait for the reverse connection", "a success reply from the broker makes dialStandard return by itself", sel.Pos(), c.describePath(wit)...)
+			c.Check(len(nilPts) > 0 && wit == nil, rule, fnName(ds)+"#broker-success:keeps-waiting", "a success reply only continues the wait for the reverse connection", "a success reply from the broker makes dialStandard return by itself", sel.Pos(), c.describePath(wit)...)
 		}
 		c.MinCount(rule, "broker-reply receive states", found, 1)
 	}
 	// deferred cleanup
-	for _, q := range []struct {
+	type acq struct {
 		name string
 		call *ssa.Call
 		idx  int
-	}{{"listener", lnCall, 0}, {"broker-conn", brCall, 0}} {
-		defs := c20deferCloses(ds, q.call, q.idx)
+	}
+	acqs := []acq{{"listener", lnCall, 0}}
+	for i, b := range brCalls {
+		name := "broker-conn"
+		if i > 0 {
+			name = fmt.Sprintf("broker-conn/%d", i+1)
+		}
+		acqs = append(acqs, acq{name, b, 0})
+	}
+	for _, q := range acqs {
+		defs := c.c20deferCloses(ds, q.call, q.idx)
 		succ, _, _ := callErrEdges(ds, q.call)
 		var wit []*ssa.BasicBlock
 		for _, e := range succ {
@@ -895,27 +1131,24 @@ func c20r5(c *Ctx) {
 		if n > 1 {
 			key = fmt.Sprintf("%s/%d", key, n)
 		}
-		rv, field, ok := c20recvOf(r.val)
+		droot := c.c05rootFrame(dial, one)
+		rv, field, ok := c20recvOrigin(droot, r.val)
 		if !ok {
 			c.Violate(rule, key+":from-results-channel", "Dial returns a connection that was not received from the results channel", r.at.Pos())
 			continue
 		}
-		sends := c20sends(dial, rv.ch)
+		sends := c20sends(droot, rv.ch)
 		good := len(sends) > 0
 		cancelled := len(sends) > 0
 		for _, s := range sends {
 			v := c20sentField(s, field)
-			ex, _ := v.(*ssa.Extract)
-			var call *ssa.Call
-			if ex != nil {
-				call, _ = ex.Tuple.(*ssa.Call)
-			}
-			if call == nil || ex.Index != 0 || calleeFn(call) != one {
+			call, ridx := c05resultOf(v.v)
+			if call == nil || ridx != 0 || v.fr == nil || calleeFn(call) != one {
 				good = false
 				continue
 			}
 			// the attempt's context is cancelled when Dial returns
-			cx, _ := c05resolve(call.Call.Args[0]).(*ssa.Extract)
+			cx, _ := v.fr.res(call.Call.Args[0]).v.(*ssa.Extract)
 			var wc *ssa.Call
 			if cx != nil {
 				wc, _ = cx.Tuple.(*ssa.Call)
@@ -936,7 +1169,7 @@ func c20r5(c *Ctx) {
 		}
 		c.Check(good, rule, key+":from-results-channel", "the returned connection is a dialOne result sent by an attempt goroutine", "the results channel is fed by something other than dialOne results", r.at.Pos())
 		c.Check(cancelled, rule, key+":attempts-cancelled", "attempts run under a context whose cancel is deferred in Dial", "attempts do not run under a context that Dial cancels on return: losing attempts keep running", r.at.Pos())
-		okE, p := c05passesOneOf(dial, c20errNilEdges(dial, r.val), r.at)
+		okE, p := c05dominated(c20connTg(droot, r), c05newCuts(c20errNil(rv)))
 		c.Check(okE, rule, key+":attempt-ok", "returned only when the attempt's error is nil", "a connection is returned without testing the attempt's error", r.at.Pos(), c.describePath(p)...)
 	}
 	c.Check(n == 1, rule, fnName(dial)+"#single-winner", "exactly one exit returns a connection", fmt.Sprintf("%d exits of Dial return a connection (expected exactly one)", n), dial.Pos())
